@@ -401,15 +401,11 @@ func (sc *StateContext) GetTrieNode(key datastore.Key, v util.MPTSerializable) e
 
 	cv, ok := sc.Cache().Get(key)
 	if ok {
-		ccv, ok := statecache.Copyable(v)
-		if !ok {
-			panic("state context cache - get trie node not copyable")
+		// the cached value may be of another type than the one asked for (all provider types share
+		// the provider:<id> keys): then decode from the MPT, as a node with a cold cache does
+		if ccv, ok := statecache.Copyable(v); ok && ccv.CopyFrom(cv) {
+			return nil
 		}
-
-		if !ccv.CopyFrom(cv) {
-			panic("state context cache - get trie node copy from failed")
-		}
-		return nil
 	}
 
 	// get from MPT
